@@ -552,12 +552,56 @@ fn run_names(idx: u64, acc: &mut Acc) {
     check(acc, &format!("{} has on a path", site), &src, &bdesc, &want, &b);
 }
 
+// ---------------------------------------------------------------------------
+// paths whose root fails for another reason than absent data: every other failure propagates
+
+/// roots that fail, but not because something is absent (z = 0, s = 'x', l = [1, 2])
+const FAILED_ROOTS: [&str; 6] = ["(1 / z)", "(1 % z)", "l[5]", "int(s)", "(l + 1)", "(-s)"];
+const ROOT_SUFFIXES: [&str; 8] = [".a", ".a.b", "['k']", ".a['k']", "['k'].a", ".a.b.c", "[0].a", ".size"];
+const ROOT_CONTEXTS: [&str; 6] = ["has($)", "coalesce($, 'dflt')", "[1].map(i, has($))[0]", "has($) ? 1 : 2", "coalesce(null, $, 1)", "[1].filter(i, has($))"];
+
+fn run_failed_root(idx: u64, acc: &mut Acc) {
+    let d = unrank(idx, &[FAILED_ROOTS.len() as u64, ROOT_SUFFIXES.len() as u64, ROOT_CONTEXTS.len() as u64]);
+    let e = format!("{}{}", FAILED_ROOTS[d[0] as usize], ROOT_SUFFIXES[d[1] as usize]);
+    let ctx = ROOT_CONTEXTS[d[2] as usize];
+    let src = ctx.replace('$', &e);
+    let mut b = BindContext::new();
+    b.bind_param("z", CelValue::Int(0));
+    b.bind_param("s", CelValue::String("x".to_string()));
+    b.bind_param("l", CelValue::List(vec![CelValue::Int(1), CelValue::Int(2)]));
+    take_log();
+    let got = real::eval_with(&src, &b);
+    acc.eval();
+    acc.class(&got.class());
+    acc.nontrivial(&idx);
+    let ok = match &got {
+        Outcome::Fail(k, _) => !k.is_absent(),
+        _ => false,
+    };
+    if !ok {
+        acc.violation(
+            &format!("path on a root that failed `{}` in `{}` failure-not-propagated", ROOT_SUFFIXES[d[1] as usize], ctx),
+            json!({"src": src, "bindings": "z = 0, s = 'x', l = [1, 2]"}),
+            "the failure of the root (not absent data), propagated".into(),
+            got.show(),
+        );
+    }
+    if acc.wants_sample() {
+        acc.sample(json!({"src": src, "observed": got.show()}));
+    }
+}
+
+fn failed_root_size() -> u64 {
+    (FAILED_ROOTS.len() * ROOT_SUFFIXES.len() * ROOT_CONTEXTS.len()) as u64
+}
+
 pub fn replay_families(t: Tier) -> Vec<Family<'static>> {
     let l: &'static Lists = Box::leak(Box::new(Lists::new(t)));
     vec![
         Family::new("paths", 5 * 6 * TERMS.len() as u64 * PFORMS.len() as u64, run_path),
         Family::new("coalesce-lists", l.size(), move |i, a| l.run(i, a)),
         Family::new("names", NAMES_LIKE_BUILTINS.len() as u64 * 3, run_names),
+        Family::new("failed-roots", failed_root_size(), run_failed_root),
     ]
 }
 
@@ -565,12 +609,13 @@ pub fn run(t: Tier) -> i32 {
     let mut rep = Report::new(ID, t, "exploration");
     let l = Lists::new(t);
     rep.rule = format!(
-        "paths: field paths r, r.a, .. r.a.b.c.d in 4 spellings (dots, ['k'] indices, alternating, variable keys) x every binding configuration (the chain stops at any level with the root unbound / a field missing, null, an int, a string, a list or an empty map; or reaches the leaf, which is null, a value, or a map) x has() in 9 contexts (top level, map and filter bodies, ?:, nested has, !, &&, all, nested exists) and through a loop variable, and coalesce(e, 'dflt') in 5 contexts and through a loop variable; around an absent access has() is false and coalesce falls through also under 16 wrappers that hand the failure on (every conversion, size as function and method, abs, max, an f-string hole, a list and a map literal, + and ==), at top level and in a macro body; expected from the two-class lattice absent/other; for a field looked up on a non-map (class not fixed by the statement) the implementation's own top-level has() answer (false or failure, never true) must be reproduced in every context and by coalesce. coalesce-lists: every argument list of length 0..{} over 14 items (present, null, unbound, missing field/index, null field, foldable and run-time division by zero, type error, bad index, call-recording present/null) in 4 contexts: result and the exact set of evaluated call-recording arguments. names: bare identifiers spelled like built-in functions/macros (size, max, filter, map, has, ...) unbound / bound / bound to null, in all has and coalesce contexts. Non-trivial = every enumerated configuration; distinct by index",
+        "paths: field paths r, r.a, .. r.a.b.c.d in 4 spellings (dots, ['k'] indices, alternating, variable keys) x every binding configuration (the chain stops at any level with the root unbound / a field missing, null, an int, a string, a list or an empty map; or reaches the leaf, which is null, a value, or a map) x has() in 9 contexts (top level, map and filter bodies, ?:, nested has, !, &&, all, nested exists) and through a loop variable, and coalesce(e, 'dflt') in 5 contexts and through a loop variable; around an absent access has() is false and coalesce falls through also under 16 wrappers that hand the failure on (every conversion, size as function and method, abs, max, an f-string hole, a list and a map literal, + and ==), at top level and in a macro body; expected from the two-class lattice absent/other; for a field looked up on a non-map (class not fixed by the statement) the implementation's own top-level has() answer (false or failure, never true) must be reproduced in every context and by coalesce. coalesce-lists: every argument list of length 0..{} over 14 items (present, null, unbound, missing field/index, null field, foldable and run-time division by zero, type error, bad index, call-recording present/null) in 4 contexts: result and the exact set of evaluated call-recording arguments. names: bare identifiers spelled like built-in functions/macros (size, max, filter, map, has, ...) unbound / bound / bound to null, in all has and coalesce contexts. failed-roots: 6 roots that fail for another reason than absent data (division and remainder by zero, index out of range, a conversion, a type error, a negated string) x 8 path suffixes (.a, .a.b, ['k'], [0].a, .size, ...) x 6 has/coalesce contexts: the failure of the root propagates, it is never turned into absent data. Non-trivial = every enumerated configuration; distinct by index",
         t.pick(4, 6)
     );
     rep.run_family(Family::new("paths", 5 * 6 * TERMS.len() as u64 * PFORMS.len() as u64, run_path));
     rep.run_family(Family::new("coalesce-lists", l.size(), |i, a| l.run(i, a)));
     rep.run_family(Family::new("names", NAMES_LIKE_BUILTINS.len() as u64 * 3, run_names));
+    rep.run_family(Family::new("failed-roots", failed_root_size(), run_failed_root));
     rep.assumptions = vec![
         "a field or key looked up on a value that is not a map may count as absent or as another failure; only consistency is demanded there".into(),
         "failure kinds are not compared beyond the absent/other split, which is observed through has() and coalesce() themselves".into(),
